@@ -104,7 +104,7 @@ func checkCacheAgainstDB(n *node.Node, k *mon.Case, where string) {
 func main() {
 	mon.Main(mon.Options{
 		Property: "C05", Level: "exploration",
-		Rule: "random histories on a real Chain+Executer with a twin node in lock-step; at random points: apply k blocks (txs, assets, events, validator-set changes creating/overwriting/deleting BFT parameter and generator-key entries, finality advances) then delete them one by one through Executer.deleteBlock (saveTemp both ways) comparing a byte-for-byte dump of the whole DB, the cached tip and the application state with the snapshot taken before each block; then re-apply from temp blocks or apply a sibling and compare with the twin that never saw the deleted blocks; non-trivial+distinct = (depth, block shape, saveTemp, finality-advanced) of an apply/delete pair that was actually compared",
+		Rule: "random histories on a real Chain+Executer with a twin node in lock-step; at random points: apply k blocks (txs, assets, events, validator-set changes creating/overwriting/deleting BFT parameter and generator-key entries, finality advances) then delete them one by one through Executer.deleteBlock (saveTemp both ways) comparing a byte-for-byte dump of the whole DB, the cached tip and the application state with the snapshot taken before each block; removal attempts that fail once in the application (scripted Revert error) must change nothing and the retry must restore; then re-apply from temp blocks or apply a sibling (the removed blocks must stay among the temp blocks) and compare with the twin that never saw the deleted blocks; non-trivial+distinct = (depth, block shape, saveTemp, finality-advanced) of an apply/delete pair that was actually compared",
 		Assumptions: []string{
 			"allow-list from the statement: finalized marker may only grow; state diffs / events below the new finalized height may be pruned; temp blocks judged separately",
 			"application state is that of the scripted ABI (hash chain), reverted through labi.Revert",
